@@ -234,6 +234,72 @@ pub fn part_exec(tier: Tier) -> Part {
     part
 }
 
+/// C08 (b2): arbitrary memory images behind typed values.
+pub fn part_poison(tier: Tier) -> Part {
+    use serde_json::json;
+    let mut part = Part::new("c08_poisoned_memory");
+    part.rule = "at a stop in the std-linked program: for each of 13 (quick) / 27 locals (String, Vec, nested Vec, VecDeque, HashMap / HashSet incl. tombstoned and struct- / tuple-keyed ones, BTreeMap / BTreeSet, Box, Rc, Arc, Cell, RefCell, Option<String>, slice, tuple) every 8-byte word of its in-memory header (up to 8 words) is overwritten in turn with each of 9 (quick) / 18 poison values (0, 1, 7, 8, 2^20, u64::MAX, 2^63, 2^63-1, -8, a stack address, a non-canonical address, the word's own address, the variable's address, the old value +1 / -1 / with a flipped byte / shifted) through the debugger's own write_memory; with each image the variable, `v[0]`, `v[1..3]`, `*v` and `~v` are evaluated and their value trees walked; then the word is restored. No panic, no abort, no evaluation slower than 60 s (the slowest is reported), peak memory of the debugger below 4 GB, and afterwards the program runs to its normal end with its native output".into();
+    let (exe, file, line) = match crate::c06s::ensure_built(3, 5) {
+        Ok(x) => x,
+        Err(e) => {
+            part.violate("MACHINERY:std-build", e, json!(null));
+            return part;
+        }
+    };
+    let all = ["s_ascii", "s_utf8", "s_empty", "v_i32", "v_empty", "v_cap", "vv", "v_str", "vd", "vd_del", "hm", "hm_del", "hs_del", "hm_key", "hm_tup", "hs", "bm", "bm_del", "bm_tup", "bs", "bx", "rc", "arc", "rcell", "opt_s", "sl", "tup"];
+    // the quick tier takes one variable per decoder
+    let quick = ["s_utf8", "v_i32", "vv", "vd", "hm", "hs_del", "bm", "bm_tup", "bs", "rc", "rcell", "opt_s", "sl"];
+    let all: Vec<&str> = if tier == Tier::Quick { quick.to_vec() } else { all.to_vec() };
+    // independent sessions over slices of the variable list
+    let chunks: Vec<Vec<&str>> = all.chunks(1).map(|c| c.to_vec()).collect();
+    let native = std::process::Command::new(&exe).output().map(|o| String::from_utf8_lossy(&o.stdout).to_string()).unwrap_or_default();
+    let strip = |s: &str| s.lines().filter(|l| !l.starts_with("DBG h")).collect::<Vec<_>>().join("\n");
+    let runs: Vec<(Vec<serde_json::Value>, crate::mt::Run)> = {
+        use rayon::prelude::*;
+        let pool = rayon::ThreadPoolBuilder::new().num_threads(8).build().unwrap();
+        pool.install(|| {
+            chunks
+                .par_iter()
+                .map(|vars| {
+                    let cmds = vec![json!({"op": "break_line", "file": file, "line": line}), json!({"op": "start"}), json!({"op": "c08_poison", "vars": vars, "all_poisons": tier == Tier::Thorough}), json!({"op": "continue"})];
+                    let run = crate::mt::session(&exe, |obs| cmds.get(obs.len()).cloned(), std::time::Duration::from_secs(600), cmds.len());
+                    (cmds, run)
+                })
+                .collect()
+        })
+    };
+    let mut vars_covered = 0u64;
+    for (cmds, run) in runs {
+        let replay = json!({"engine": "mt", "exe": exe, "commands": cmds});
+        part.states += run.obs.len() as u64;
+        part.traces_validated += 1;
+        if run.hang_at.is_some() || run.crashed.is_some() || run.obs.len() < 4 {
+            part.violate("C08:poison:session-died", format!("variables {}: hang at command {:?}, crash {:?}", cmds[2]["vars"], run.hang_at, run.crashed.as_ref().map(|c| c.chars().take(300).collect::<String>())), replay);
+            continue;
+        }
+        let r = &run.obs[2]["res"];
+        part.evaluations += r["evaluations"].as_u64().unwrap_or(0);
+        part.transitions += r["images"].as_u64().unwrap_or(0);
+        part.distinct_nontrivial += r["with_value"].as_u64().unwrap_or(0);
+        vars_covered += r["variables"].as_array().map(|a| a.len() as u64).unwrap_or(0);
+        for f in r["findings"].as_array().cloned().unwrap_or_default() {
+            part.violate(f["sig"].as_str().unwrap_or("C08:poison:?").to_string(), f["detail"].as_str().unwrap_or("").to_string(), replay.clone());
+        }
+        if part.samples.len() < 16 {
+            part.sample(json!({"wall_ms": r["wall_ms"], "variables": r["variables"], "images": r["images"], "evaluations": r["evaluations"], "evaluations_with_a_value": r["with_value"], "slowest": r["slowest"], "peak_rss_kb": r["peak_rss_kb"]}));
+        }
+        let stdout = run.result.as_ref().and_then(|r| r["stdout"].as_str()).unwrap_or("").to_string();
+        if run.obs[3]["res"]["kind"] != "exit" || strip(&stdout) != strip(&native) {
+            part.violate("C08:poison:program-does-not-finish-natively-after-the-sweep", format!("variables {}: {} stdout {:?}", cmds[2]["vars"], run.obs[3]["res"], stdout.chars().take(200).collect::<String>()), replay);
+        }
+    }
+    if vars_covered < all.len() as u64 - 2 {
+        part.violate("MACHINERY:poison-variables-not-found", format!("{vars_covered} of {} variables had an address and a size", all.len()), json!(null));
+    }
+    part.bounds = json!({"variables": all.len(), "words_per_variable": "<= 8", "poison_values": if tier == Tier::Thorough { 18 } else { 9 }, "expressions_per_image": 5});
+    part
+}
+
 /// C08 (c): boundary-valued and ill-typed arguments for the data requests of the DAP adapter.
 pub fn part_dap_args(tier: Tier) -> Part {
     use crate::c15d::Dap;
